@@ -178,7 +178,7 @@ def generate(rng, tier, index, seed):
             call = "(call/cc (lambda (k) (with-exception-handler (lambda (e) (k (list 'thread-raised (if (error-object? e) (error-object-message e) e)))) (lambda () (thread-join! (thread-start! (make-thread (lambda () %s))))))))" % call
             sched["quantum"] = [rng.range(1, 200) for _ in range(rng.range(10, 300))]
         steps = [{"op": "eval", "src": defs}, {"op": "eval", "src": call}, {"op": "eval", "src": PROBE}, {"op": "eval", "src": "(count 50)"}]
-        meta.update({"depth": depth, "base": base})
+        meta.update({"depth": depth, "base": base, "spread": "make-list n" in shape})
     else:
         n_iter = 300000 if cfg != "asan" else 20000
         defs, call = gen_tail_program(rng.fork("prog"), n_iter, 50000)
@@ -250,6 +250,16 @@ def execute(case, run):
             V.append(Verdict("deep-recursion-wrong-outcome", "depth %d: outcome %r (neither the value nor an out-of-stack error)" % (d, (r["res"] + "|" + r["out"])[:300]), {"kind": kind}))
         if d <= ceiling // 33 and not val_ok:
             V.append(Verdict("deep-recursion-spurious-failure", "depth %d is far below the ceiling %d but did not return its value: %r" % (d, ceiling, r["res"][:200]), {"kind": kind}))
+        if oos:
+            # an out-of-stack error is only right when the stack cannot hold what was asked for: some stack object must have been grown to
+            # the configured maximum first (the tick monitor samples the running context's stack object every few hundred instructions, and
+            # filling the upper half of the largest stack takes far longer than that), or -- one call spreading d values -- d alone must not fit
+            if meta.get("spread"):
+                # (a primitive applied to d spread values runs through a d-parameter wrapper that pushes them a second time)
+                if 3 * d + 2048 < ceiling:
+                    V.append(Verdict("out-of-stack-below-ceiling", "spreading %d values reported out of stack; ceiling %d slots" % (d, ceiling), {"kind": kind, "spread": True}))
+            elif st.get("max_stack_len", ceiling) < ceiling:
+                V.append(Verdict("out-of-stack-below-ceiling", "depth %d reported out of stack while the largest stack object seen had %d slots, ceiling %d" % (d, st["max_stack_len"], ceiling), {"kind": kind, "spread": False}))
         if d > ceiling and val_ok:
             V.append(Verdict("ceiling-not-enforced", "depth %d exceeds the stack ceiling %d slots but returned a value" % (d, ceiling), {"kind": kind}))
         probe_ok(2)
